@@ -196,7 +196,7 @@ def native_replay(module_name, unit_name, model):
         sys.path.insert(0, VERIF)
     if sys.path[0] != REPO:
         sys.path.insert(0, REPO)
-    from . import api
+    from . import api, slices
     mod = importlib.import_module(module_name)
     f, meta = api.UNITS[unit_name]
     api.reset(model)
@@ -205,6 +205,10 @@ def native_replay(module_name, unit_name, model):
         f()
     except api.AssumeFailed:
         out["assume_failed"] = True
+    except slices.SliceMismatch as e:
+        # the harness no longer matches the source: this run says nothing about the code
+        out["assume_failed"] = True
+        out["harness_mismatch"] = str(e)[:300]
     except Exception as e:
         out["exception"] = "%s: %s" % (type(e).__name__, (repr(e) if not str(e) else str(e))[:500])
     out["results"] = list(api.RESULTS)
@@ -274,7 +278,8 @@ def adjudicate(module_name, unit_name, n, seed=0, want=None):
         if rep["assume_failed"]:
             continue
         evals += 1
-        bad = [nm for nm, ok in rep["results"] if not ok]
+        from . import fields
+        bad = [nm for nm, ok in rep["results"] if not ok and fields.unmodelled(nm) is None]
         if rep["exception"] is not None:
             bad.append("noexc")
         if want is not None:
